@@ -1,6 +1,7 @@
 From GV Require Import Base.Grammar Base.Analyses LR.Automaton LR.Validator LR.Spec LR.Sound LR.Complete LR.Prefix.
 From GV Require Repair.Spec Repair.Proofs.
 
+From GV Require LR.TermSpec Properties.LRterm.
 Theorem C04_shifted_prefix_viable : shifted_prefix_viable_stmt.
 Proof. exact shifted_prefix_viable. Qed.
 Print Assumptions C04_shifted_prefix_viable.
@@ -20,3 +21,9 @@ Print Assumptions C04_lr_never_panics.
 Theorem C04_recovery_first_error_is_plain_reject : Repair.Spec.first_error_is_plain_reject_stmt.
 Proof. exact Repair.Proofs.first_error_is_plain_reject. Qed.
 Print Assumptions C04_recovery_first_error_is_plain_reject.
+
+(* in C04's domain (validated conflict-free table, productive grammar without derivation cycles) the parse always returns *)
+Theorem C04_lr_terminates_validated : GV.LR.TermSpec.lr_terminates_validated_stmt.
+Proof. exact GV.Properties.LRterm.LRterm_lr_terminates_validated. Qed.
+Print Assumptions C04_lr_terminates_validated.
+
